@@ -44,6 +44,7 @@ structure XProc where
   order : List Nat := []                  -- m_nodes
   resetVals : List (Nat × Nat) := []      -- register id ↦ constant node id
   regCfg : Option RegCfg := none
+  regClks : List (Nat × Trigger × ResetKind × Bool × Bool) := []   -- register ↦ its clock's trigger, reset type, reset active high, register has a reset value
   deriving Inhabited
 
 def XProc.outType (p : XProc) (np : NP) : Option (Char × Nat) := do
@@ -268,6 +269,25 @@ def combProcessBody (p : XProc) : FM (List Stmt) := do
   match schedule sstmts ready with
   | none => .error "scheduler: cyclic dependency (HCL_ASSERT)"
   | some order => .ok (order.filterMap fun s => (cs[s.tag]?).map (·.stmt))
+
+/-- `RegisterConfig::fromClock` (`Process.cpp:57-66`) as far as the emitted text depends on it: trigger event, reset type and
+polarity come from the register's OWN clock (a derived clock may override them while sharing its parent's pin) -/
+def regConfigFromClock (trig : Trigger) (rtype : ResetKind) (high hasResetValue : Bool) : Trigger × ResetKind × Bool :=
+  let hasReset := hasResetValue && rtype != .none
+  (trig, if hasReset then rtype else .none, if hasReset then high else true)
+
+/-- every register of a process must have the configuration the process was emitted with (registers are grouped by it, `BasicBlock.cpp:455`) -/
+def regConfigsAgree (p : XProc) : FM Unit := do
+  let some cfg := p.regCfg | .error "register process without configuration"
+  for id in p.order do
+    match p.regClks.lookup id with
+    | none => .error s!"register {id} without clock dump"
+    | some (t, k, h, rv) =>
+      let (t', k', h') := regConfigFromClock t k h rv
+      if t' != cfg.trigger then .error s!"register {id}: its clock triggers on {repr t'} but the process is emitted for {repr cfg.trigger}"
+      if k' != cfg.kind then .error s!"register {id}: reset kind {repr k'} vs process {repr cfg.kind}"
+      if k' != .none && h' != cfg.resetHigh then .error s!"register {id}: reset polarity differs from the process"
+  return ()
 
 /-- the body of a register process (`RegisterProcess::writeVHDL`) from the dump -/
 def regProcessFromDump (p : XProc) : FM (RegCfg × Stmts) := do
